@@ -105,17 +105,48 @@ def run_mc(run, cfgname, timeout):
     return {"cfg": cfgname, "states": distinct, "transitions": gen, "wall_s": round(time.time() - t0, 1)}
 
 
-def validate(run, trace, workers=1, timeout=3600):
-    rc, out = run_tlc("SeqTrace.tla", os.path.join(SPEC, "SeqTrace.cfg"), os.path.join(run, "meta_trace"),
-                      env={"VERIF_TRACE": trace, "VERIF_BODIES": trace + ".bodies.json"}, timeout=timeout,
-                      java_opts="-Xss512m")
-    fails = fail_tuples(out)
-    gen, distinct = tlc_stats(out)
-    ok = "Model checking completed. No error has been found" in out
-    if not ok:
-        raise Inconclusive("trace validation did not complete (rc=%d):\n%s" % (rc, "\n".join(
-            l[:300] for l in out.splitlines() if l.startswith("Error") or "exception" in l.lower())[:1500]))
-    return fails, distinct
+def validate(run, trace, workers=1, timeout=3600, chunk_lines=3000, par=8):
+    """TLC trace validation. Big trace files are split at trace boundaries ("reset" lines) into chunks that are
+    validated by parallel TLC processes; returns (FAIL tuples, consumed lines + 1)."""
+    import concurrent.futures
+    chunks, cur, n = [], [], 0
+    with open(trace) as fh:
+        for line in fh:
+            if line.startswith('{"k":"reset"') and len(cur) >= chunk_lines:
+                chunks.append(cur)
+                cur = []
+            cur.append(line)
+            n += 1
+    if cur:
+        chunks.append(cur)
+    base = os.path.basename(trace)
+
+    def one(i):
+        if len(chunks) == 1:
+            cf = trace
+        else:
+            cf = os.path.join(run, "%s.chunk%d" % (base, i))
+            with open(cf, "w") as fh:
+                fh.writelines(chunks[i])
+        rc, out = run_tlc("SeqTrace.tla", os.path.join(SPEC, "SeqTrace.cfg"), os.path.join(run, "meta_trace_%s_%d" % (base, i)),
+                          env={"VERIF_TRACE": cf, "VERIF_BODIES": trace + ".bodies.json"}, timeout=timeout,
+                          java_opts="-Xss512m -Xmx4g")
+        if cf != trace:
+            os.remove(cf)
+        ok = "Model checking completed. No error has been found" in out
+        if not ok:
+            raise Inconclusive("trace validation did not complete (rc=%d):\n%s" % (rc, "\n".join(
+                l[:300] for l in out.splitlines() if l.startswith("Error") or "exception" in l.lower())[:1500]))
+        gen, distinct = tlc_stats(out)
+        if distinct - 1 != len(chunks[i]):
+            raise Inconclusive("trace validation consumed %d of %d lines of chunk %d" % (distinct - 1, len(chunks[i]), i))
+        return fail_tuples(out), distinct - 1
+    fails, consumed = [], 0
+    with concurrent.futures.ThreadPoolExecutor(max_workers=par) as ex:
+        for f, c in ex.map(one, range(len(chunks))):
+            fails += f
+            consumed += c
+    return fails, consumed + 1
 
 
 def execute(run, vh, paths, mode, workers=16):
